@@ -7,17 +7,22 @@
 //   B <epoch>                  base epoch for relative instants (a UTC midnight)
 //   N <g|l> <hexpattern>       construct a fresh TimestampFormatter (GmtTime / LocalTime)   -> {"op":"new",...}
 //   F <relsec> <ns>            format base+relsec seconds + ns nanoseconds on it            -> {"op":"fmt",...}
+//   E                          end of the execution: destroy the formatter
 //   V <0|1>                    verbose: add per-token pieces to fmt lines
 //   X <g|l> <epoch> <maxd>     probe: smallest d in 1..maxd such that a fresh "%H:%M:%S" formatter given
 //                              epoch, epoch+d goes to libc (strftime) on the second call     -> {"op":"probe",...}
 // No private state of quill is read: the cache path is observed through a link-time interposed strftime.
+// If the code under test brings the process down (abort, SIGSEGV ...) the output so far is flushed, a
+// {"op":"crash","signal":n} line is appended and the process exits with status 70.
 #include "quill/backend/TimestampFormatter.h"
 
+#include <csignal>
 #include <cstdio>
 #include <cstdlib>
 #include <cstring>
 #include <ctime>
 #include <dlfcn.h>
+#include <unistd.h>
 #include <fstream>
 #include <memory>
 #include <sstream>
@@ -130,6 +135,17 @@ static std::string frac_digits(std::string const& spec, long ns)
 
 struct Field { int part; char kind; size_t pos; size_t width; };
 
+static FILE* g_out = nullptr;
+static void on_fatal(int sig)
+{
+  if (g_out)
+  {
+    fprintf(g_out, "{\"op\":\"crash\",\"signal\":%d}\n", sig);
+    fflush(g_out);
+  }
+  _exit(70);
+}
+
 int main(int argc, char** argv)
 {
   if (argc < 3) { fprintf(stderr, "usage: h_time <script> <out>\n"); return 2; }
@@ -138,6 +154,8 @@ int main(int argc, char** argv)
   if (!in || !out) { fprintf(stderr, "cannot open files\n"); return 2; }
   std::vector<char> obuf(1 << 20);
   setvbuf(out, obuf.data(), _IOFBF, obuf.size());
+  g_out = out;
+  for (int sg : {SIGABRT, SIGSEGV, SIGBUS, SIGFPE, SIGILL}) signal(sg, on_fatal);
 
   long long base = 0;
   bool verbose = false;
@@ -154,6 +172,7 @@ int main(int argc, char** argv)
     ls >> cmd;
     if (cmd == "B") { ls >> base; }
     else if (cmd == "V") { int v; ls >> v; verbose = v != 0; }
+    else if (cmd == "E") { f.reset(); }
     else if (cmd == "N")
     {
       std::string m, hx;
